@@ -79,6 +79,7 @@ func init() {
 			{ID: "R12u", Floor: 1, Doc: "the version of a file being resumed is read from the file the store was opened on, not through a window sized by an offset of the other format", Run: ruleR12u},
 			{ID: "R12v", Floor: 2, Doc: "a new file holds no CARv2 header before Finalize: the header slot is written where the pinned tree writes it (= R06h)", Run: ruleR06h},
 			{ID: "R12w", Floor: 1, Doc: "different roots are different also when a root is listed twice: CarHeader.Matches keeps state per root (marks, counts or sorts) instead of testing containment one way", Run: ruleR12w},
+			{ID: "R12x", Floor: 1, Doc: "Resume leaves the data writer where the next section goes on every path that may report success, also when the file holds no section yet", Run: ruleR12x},
 		},
 	})
 	register(PropertyDef{
